@@ -540,9 +540,13 @@ class BaseParser:
             for k, v in data.items():
                 k = str(k)
                 if k.lower() in self.case_insensitive_names:
-                    _data[k.lower()] = v
-                else:
-                    _data[k] = v
+                    k = k.lower()
+                    if k in _data and not context.options.ignore_alias_conflicts:
+                        # the same name given in two letter cases
+                        if _data[k] != v:
+                            context.handle_error(exc.AliasConflictError(item=k, value=v))
+                        continue
+                _data[k] = v
             data = _data
 
         result = {}
